@@ -83,8 +83,13 @@ def ref_op_outputs(op, items):
     return outs
 
 
+MAPVAL = ['tagged']
+
+
 def mapper(e):
-    return ('mapped', e.tag)
+    # the replacement item may be any value, also None / 0 / False / ''
+    v = MAPVAL[0]
+    return ('mapped', e.tag) if v == 'tagged' else {'none': None, 'zero': 0, 'false': False, 'empty': ''}[v]
 
 
 def ref_tail(tail, xs):
@@ -115,6 +120,7 @@ def tail_ops(tail):
 
 def run(case):
     op, handler, tail, driver = case['op'], case['handler'], case['tail'], case['driver']
+    MAPVAL[0] = case.get('mapval', 'tagged')
     outer = bool(case.get('outer')) and case['driver'] == 'grouped' and case['handler'] != 'none'
     items = [(k, v, bool(f), n) for n, (k, v, f) in enumerate(case['items'])]
     if driver != 'grouped':
@@ -258,7 +264,8 @@ def case_gen(draw):
     n = draw(st.integers(draw(st.sampled_from([0, 1, 3, 6])), 12))
     items = [[draw(st.integers(0, 2)), draw(st.integers(-5, 5)), draw(st.integers(0, 2).map(lambda x: int(x == 0)))] for _ in range(n)]
     return {'op': op, 'handler': draw(st.sampled_from(HANDLERS)), 'tail': tail, 'driver': driver, 'items': items,
-            'outer': driver == 'grouped' and draw(st.integers(0, 3)) == 0}
+            'outer': driver == 'grouped' and draw(st.integers(0, 3)) == 0,
+            'mapval': draw(st.sampled_from(['tagged', 'tagged', 'none', 'zero', 'false', 'empty']))}
 
 
 def enum(tier):
@@ -324,10 +331,41 @@ def run_malformed(case):
     return {'nontrivial': bool(bad) and len(bad) < len(items), 'labels': ['handler:' + handler, case['driver']]}
 
 
+@st.composite
+def second_run_case(draw):
+    n = draw(st.integers(1, 8))
+    return {'items': [[draw(st.integers(-5, 5)), draw(st.integers(0, 2).map(lambda x: int(x == 0)))] for _ in range(n)],
+            'op': draw(st.sampled_from(['map', 'filter'])), 'driver': draw(st.sampled_from(['store', 'multiplex']))}
+
+
+def run_second(case):
+    """The same router and the same pipeline serve a second stream after the first one ended: errors are routed again,
+    the dead-letter observable receives them and completes again."""
+    items = [(0, v, bool(f), n) for n, (v, f) in enumerate(case['items'])]
+    errors, route = rs.error.create_error_router()
+    inner = [failing_op(case['op']), route()]
+    pipeline = rs.state.with_memory_store(inner) if case['driver'] == 'store' else rs.ops.multiplex(inner)
+    obs = rx.from_(items).pipe(pipeline)
+    want_dead = [it[3] for it in items if it[2]]
+    want = [x for o in ref_op_outputs(case['op'], items) if o is not None for x in o]
+    for run_no in (1, 2):
+        dead, done = [], []
+        errors.subscribe(on_next=dead.append, on_completed=lambda: done.append(1))
+        r = drive.collect(obs)
+        H.require_clean(r, 'run %d of the same pipeline + router' % run_no, **case)
+        if not cmp.same_seq(r.items, want, approx=False):
+            raise Violation('run %d: main output differs' % run_no, expected=want, got=r.items, **case)
+        if [getattr(e, 'tag', None) for e in dead] != want_dead or done != [1]:
+            raise Violation('run %d: dead letters %r (completed %r), expected %r' % (run_no, [getattr(e, 'tag', repr(e)) for e in dead], done, want_dead), **case)
+    return {'nontrivial': bool(want_dead) and len(want_dead) < len(items), 'labels': ['op:' + case['op'], case['driver']]}
+
+
 def subs(tier):
     return [
         Sub('faults', run, gen=case_gen, examples={'quick': 2500, 'thorough': 200000},
             doc='generated keyed inputs / failing subsets / operator / handler / tail / driver vs reference computed without the failing items'),
+        Sub('second_run', run_second, gen=second_run_case, examples={'quick': 400, 'thorough': 20000},
+            doc='the same error router and pipeline used for a second stream after the first one ended'),
         Sub('malformed', run_malformed, gen=malformed_case, examples={'quick': 600, 'thorough': 40000},
             doc='starmap over items that cannot be star-applied (None, scalars, wrong arity) with each handler'),
         Sub('enum', run, enum=enum, doc='all failing subsets up to n items x operators x handlers x {1,2} keys'),
